@@ -2077,4 +2077,11 @@ theorem corW_sq_le_one' (v1 v2 w : List ℝ) (nw : Bool) (h1 : v1.length = w.len
   rw [div_pow, mul_pow, Real.sq_sqrt hapos.le, Real.sq_sqrt hbpos.le, div_le_one (mul_pos hapos hbpos)]
   exact hcs
 
+theorem foldl_append_flatten {α : Type} (vs : List (List α)) (acc : List α) :
+    vs.foldl (fun acc v => acc ++ v) acc = acc ++ vs.flatten := by
+  induction vs generalizing acc with
+  | nil => simp
+  | cons v rest ih => simp [ih]
+
+
 end Bpp.VecTools
